@@ -146,6 +146,12 @@ def check(tree, rep, tier='quick', seed=0):
                         code.append((iv, None, f'{what} at {rel}:{getattr(o.node, "lineno", 0)}'))
             code.sort(key=lambda t: (t[0].lo, t[0].lo_open))
             results[mname] = code
+            # the tax must be *defined*: line 16 and the worksheet lines are money lines, and the type check of a money
+            # line rejects an int (0 instead of 0.0) with a TypeError - the return is then not computed at all
+            ints = [(iv, f) for iv, f, w in code if f is not None and not f.is_float]
+            rep.ob('D1', f'{y}/{mname}/result-is-a-float', not ints,
+                   f'figure_tax({y}, {mname}) returns the int {ints[0][1]!r} on incomes {ints[0][0]!r}: the money line that returns it (1040 line 16, worksheet lines 22/24) '
+                   'is rejected by the type check, so the tax is not defined there' if ints else '', rel)
             orc, T = oracle_pieces(sched['edges'][str(y)][oname], sched['rates'], maxinc)
             pts = sorted(breakpoints([(iv, f) for iv, f, _ in code]) | breakpoints(orc))
             key0 = f'{y}/{mname}'
